@@ -749,6 +749,23 @@ func (env *Env) call(e *ast.CallExpr) Term {
 			return boolT(fmt.Sprintf("(forall ((%s Int)) (=> %s %s))", bv, rng, body.S))
 		}
 		return boolT(fmt.Sprintf("(exists ((%s Int)) (and %s %s))", bv, rng, body.S))
+	case "forallstr":
+		// forallstr(k, body): k ranges over all strings
+		argn(2)
+		id, ok := e.Args[0].(*ast.Ident)
+		if !ok {
+			cerr("forallstr: first argument must be an identifier")
+		}
+		g.nfresh++
+		bv := fmt.Sprintf("q%d_%s", g.nfresh, id.Name)
+		n := *env
+		n.bound = map[string]Term{}
+		for k, v := range env.bound {
+			n.bound[k] = v
+		}
+		n.bound[id.Name] = Term{bv, "String", types.Typ[types.String]}
+		body := n.tr(e.Args[1])
+		return boolT(fmt.Sprintf("(forall ((%s String)) %s)", bv, body.S))
 	case "is":
 		argn(2)
 		x := env.tr(e.Args[0])
@@ -784,6 +801,35 @@ func (env *Env) call(e *ast.CallExpr) Term {
 	case "int", "int64", "uint", "uint64", "int32", "uint32", "rune", "byte":
 		argn(1)
 		return env.tr(e.Args[0])
+	case "nsent", "lastsent":
+		// ghost history of a channel: how many values were sent on it and the last one
+		argn(1)
+		ch := env.tr(e.Args[0])
+		ct, ok := types.Unalias(ch.T).Underlying().(*types.Chan)
+		if !ok {
+			cerr("%s of non-channel", name)
+		}
+		cnt, last := g.chanComps(ct)
+		if name == "nsent" {
+			return intT(fmt.Sprintf("(select %s %s)", g.get(env.st, cnt), ch.S))
+		}
+		return Term{fmt.Sprintf("(select %s %s)", g.get(env.st, last), ch.S), g.d.sortOf(ct.Elem()), ct.Elem()}
+	case "hasprefix":
+		argn(2)
+		a, b := env.tr(e.Args[0]), env.tr(e.Args[1])
+		return boolT(fmt.Sprintf("(str.prefixof %s %s)", b.S, a.S))
+	case "funcval":
+		// the value of a package-level function of the contract's package used as a function value
+		argn(1)
+		id, ok := e.Args[0].(*ast.Ident)
+		if !ok || env.pkg == nil {
+			cerr("funcval needs a function name")
+		}
+		fn := g.w.Funcs[relPkg(env.pkg.Path())+"."+id.Name]
+		if fn == nil {
+			cerr("funcval: no function %s", id.Name)
+		}
+		return Term{g.fnConst(fn), "Int", fn.Type()}
 	case "inmap":
 		// inmap(m, k)
 		argn(2)
@@ -871,6 +917,12 @@ func (g *Gen) modLocs(env *Env, m *Clause) []modLoc {
 			comp, _ := g.elemComp(t)
 			return []modLoc{{whole: comp}}
 		}
+		if id, ok := c.Fun.(*ast.Ident); ok && id.Name == "sent" {
+			x := env.tr(c.Args[0])
+			ct := types.Unalias(x.T).Underlying().(*types.Chan)
+			cnt, last := g.chanComps(ct)
+			return []modLoc{{whole: cnt, exceptRef: x.S}, {whole: last, exceptRef: x.S}}
+		}
 		if id, ok := c.Fun.(*ast.Ident); ok && id.Name == "mapof" {
 			x := env.tr(c.Args[0])
 			mt := types.Unalias(x.T).Underlying().(*types.Map)
@@ -899,13 +951,28 @@ func (g *Gen) modifiesComps(fn interface{}, c *Contract) (map[string]bool, bool)
 
 func (g *Gen) modCompByShape(c *Contract, m *Clause, comps map[string]bool) bool {
 	// Resolve using a throw-away environment with symbolic parameters.
-	fn := g.w.Funcs[c.Key]
-	if fn == nil {
-		return false
-	}
 	env := &Env{g: g, vars: map[string]Arg{}, st: &State{comp: map[string]string{}, base: "ws"}, pkg: g.pkgOfContract(c)}
-	for _, p := range fn.Params {
-		env.vars[p.Name()] = Arg{t: Term{"ws$" + sanitize(p.Name()), g.d.sortOf(p.Type()), p.Type()}}
+	if fn := g.w.Funcs[c.Key]; fn != nil {
+		for _, p := range fn.Params {
+			env.vars[p.Name()] = Arg{t: Term{"ws$" + sanitize(p.Name()), g.d.sortOf(p.Type()), p.Type()}}
+		}
+	} else if i := strings.Index(c.Key, ".type:"); i >= 0 && env.pkg != nil {
+		tn, ok := env.pkg.Scope().Lookup(c.Key[i+6:]).(*types.TypeName)
+		if !ok {
+			return false
+		}
+		sig, ok := tn.Type().Underlying().(*types.Signature)
+		if !ok {
+			return false
+		}
+		for k, n := range c.Params {
+			if k < sig.Params().Len() {
+				t := sig.Params().At(k).Type()
+				env.vars[n] = Arg{t: Term{"ws$" + sanitize(n), g.d.sortOf(t), t}}
+			}
+		}
+	} else {
+		return false
 	}
 	ok := true
 	func() {
